@@ -212,7 +212,7 @@ package router
 //@   ensures [fresh] result != nil && fresh(result)
 //@   ensures [ids] result.Publication == pubID && result.Subscription == sub.id
 //@   ensures [args-remote] subscriber == nil || !method(subscriber.Peer, "IsLocal") ==> result.Arguments == msg.Arguments && result.ArgumentsKw == msg.ArgumentsKw
-//@   ensures [args-local] subscriber != nil && method(subscriber.Peer, "IsLocal") ==> len(result.Arguments) == len(msg.Arguments) && (forall i mathint :: 0 <= i && i < len(msg.Arguments) ==> result.Arguments[i] == msg.Arguments[i]) && (forall k string :: (k in result.ArgumentsKw) == (k in msg.ArgumentsKw) && result.ArgumentsKw[k] == msg.ArgumentsKw[k])
+//@   ensures [args-local] subscriber != nil && method(subscriber.Peer, "IsLocal") ==> len(result.Arguments) == len(msg.Arguments) && (forall i mathint :: 0 <= i && i < len(msg.Arguments) ==> result.Arguments[i] == msg.Arguments[i]) && (forall k string :: (k in result.ArgumentsKw) == (k in msg.ArgumentsKw) && (k in msg.ArgumentsKw ==> result.ArgumentsKw[k] == msg.ArgumentsKw[k]))
 //@   ensures [private-local] subscriber != nil && method(subscriber.Peer, "IsLocal") ==> (msg.ArgumentsKw != nil ==> fresh(result.ArgumentsKw)) && (msg.Arguments != nil ==> result.Arguments != msg.Arguments || len(msg.Arguments) == 0)
 //@   ensures [details-private] result.Details != nil && fresh(result.Details)
 //@   ensures [topic] sendTopic ==> "topic" in result.Details && result.Details["topic"] == box(msg.Topic)
@@ -581,6 +581,7 @@ package router
 //@   ensures [inv-a] callsA(d)
 //@   ensures [inv-b] callsB(d)
 //@   ensures [inv-c] callsC(d)
+//@   ensures [invocations-only-shrink] forall i requestID :: i in d.invocations ==> old(i in d.invocations) && d.invocations[i] == old(d.invocations[i])
 //@   ensures [no-effect] !old(cancellable(d, caller, requestID(caller.ID, msg.Request))) ==> (forall c requestID :: (c in d.calls) == old(c in d.calls) && (c in d.invocationByCall) == old(c in d.invocationByCall) && (c in d.invocations) == old(c in d.invocations)) && (forall i *invocation :: i.canceled == old(i.canceled)) && (forall s *wamp.Session :: calls(trySend, s) == old(calls(trySend, s))) && (forall c mathint :: sendcount(c) == old(sendcount(c)))
 //@   ensures [not-kill-removes] old(cancellable(d, caller, requestID(caller.ID, msg.Request))) && mode != wamp.CancelModeKill ==> callGone(d, requestID(caller.ID, msg.Request), old(d.invocationByCall[requestID(caller.ID, msg.Request)]))
 //@   ensures [kill-keeps-or-removes] old(cancellable(d, caller, requestID(caller.ID, msg.Request))) && mode == wamp.CancelModeKill ==> callGone(d, requestID(caller.ID, msg.Request), old(d.invocationByCall[requestID(caller.ID, msg.Request)])) || (requestID(caller.ID, msg.Request) in d.calls && old(d.invocations[d.invocationByCall[requestID(caller.ID, msg.Request)]]).canceled && (forall s *wamp.Session :: calls(trySend, s) == old(calls(trySend, s))))
@@ -706,3 +707,170 @@ package router
 //@   sendsite invocation : [receive-progress-granted] old(isNewCall(d, caller, msg)) && optTrue(msg.Options, "receive_progress") && hasFeature(callee, "callee", "progressive_call_results") && hasFeature(callee, "callee", "call_canceling") ==> "receive_progress" in m.(*wamp.Invocation).Details && m.(*wamp.Invocation).Details["receive_progress"] == box(true)
 //@   sendsite invocation : [caller-disclosed-only-if-allowed] "caller" in m.(*wamp.Invocation).Details ==> reg.disclose || (optTrue(msg.Options, "disclose_me") && d.allowDisclose && hasFeature(callee, "callee", "caller_identification"))
 //@   sendsite invocation : [timeout-forwarded-only-if-handled] "timeout" in m.(*wamp.Invocation).Details ==> old(isNewCall(d, caller, msg)) && hasFeature(callee, "callee", "call_timeout") && reg.forwardTimeout
+
+//@ pred dealerIndexExcept(d *dealer, x *wamp.Session) = (forall c *wamp.Session, i wamp.ID :: c != x && c in d.calleeRegIDSet && i in d.calleeRegIDSet[c] ==> i in d.registrations && calleeOf(d.registrations[i], c)) && (forall i wamp.ID, k mathint :: i in d.registrations && 0 <= k && k < len(d.registrations[i].callees) && d.registrations[i].callees[k] != x ==> calleeOf(d.registrations[i], d.registrations[i].callees[k]) && d.registrations[i].callees[k] in d.calleeRegIDSet && i in d.calleeRegIDSet[d.registrations[i].callees[k]]) && dealerIndexAlloc(d)
+
+//@ func (d *dealer) syncRemoveSession
+//@   dyncalls-pure
+//@   perreturn
+//@   on dealer
+//@   props C02 C03 C05 C18
+//@   requires dealerInv(d) && dealerIndex(d) && callsInv(d) && sess != nil
+//@   modifies map(d.registrations), map(d.procRegMap), map(d.pfxProcRegMap), map(d.wcProcRegMap), map(d.calleeRegIDSet), all registration.callees, all []*wamp.Session, all []*wamp.Publish, map(d.calls), map(d.invocations), map(d.invocationByCall), all invocation.canceled, ghost sendcount
+//@   ensures [inv-nn] dealerNN(d)
+//@   ensures [inv-regs] dealerRegs(d)
+//@   ensures [inv-exact] dealerExact(d)
+//@   ensures [inv-pfx] dealerPfx(d)
+//@   ensures [inv-wc] dealerWc(d)
+//@   ensures [inv-callees] dealerCallees(d)
+//@   ensures [inv-nodup] dealerNoDup(d)
+//@   ensures [inv-policy] dealerPolicy(d)
+//@   ensures [inv-own] dealerOwn(d)
+//@   ensures [inv-index-fwd] dealerIndexFwd(d)
+//@   ensures [inv-index-bwd] dealerIndexBwd(d)
+//@   ensures [inv-index-alloc] dealerIndexAlloc(d)
+//@   ensures [inv-a] callsA(d)
+//@   ensures [inv-b] callsB(d)
+//@   ensures [inv-c] callsC(d)
+//@   ensures [no-registrations-left] forall i wamp.ID :: !isCallee(d, sess, i)
+//@   ensures [no-index-left] !(sess in d.calleeRegIDSet)
+//@   ensures [no-invocations-served] forall i requestID :: i in d.invocations ==> d.invocations[i].callee != sess
+//@   ensures [no-own-calls-left] forall c requestID :: c in d.calls ==> d.calls[c] != sess
+//@   callsite syncCancel : [answers-the-served-caller] arg3 == wamp.CancelModeSkip && arg4 == wamp.ErrCanceled && requestID(arg1.ID, arg2.Request) in d.calls && d.calls[requestID(arg1.ID, arg2.Request)] == arg1
+//@   loop range d.calleeRegIDSet[sess]
+//@     invariant [nn] dealerNN(d)
+//@     invariant [regs] dealerRegs(d)
+//@     invariant [exact] dealerExact(d)
+//@     invariant [pfx] dealerPfx(d)
+//@     invariant [wc] dealerWc(d)
+//@     invariant [callees] dealerCallees(d)
+//@     invariant [nodup] dealerNoDup(d)
+//@     invariant [policy] dealerPolicy(d)
+//@     invariant [own] dealerOwn(d)
+//@     invariant [index-others] dealerIndexExcept(d, sess)
+//@     invariant [index-sess-fwd] forall i wamp.ID :: sess in d.calleeRegIDSet && i in d.calleeRegIDSet[sess] && !visited(i) ==> isCallee(d, sess, i)
+//@     invariant [index-sess-bwd] forall i wamp.ID :: isCallee(d, sess, i) ==> sess in d.calleeRegIDSet && i in d.calleeRegIDSet[sess] && !visited(i)
+//@   loop range d.invocations
+//@     invariant [a] callsA(d)
+//@     invariant [b] callsB(d)
+//@     invariant [c] callsC(d)
+//@     invariant [served-done] forall i requestID :: visited(i) && i in d.invocations ==> d.invocations[i].callee != sess
+//@   loop range d.calls
+//@     invariant [a] callsA(d)
+//@     invariant [b] callsB(d)
+//@     invariant [c] callsC(d)
+//@     invariant [served-none] forall i requestID :: i in d.invocations ==> d.invocations[i].callee != sess
+//@     invariant [own-done] forall c requestID :: visited(c) && c in d.calls ==> d.calls[c] != sess
+
+// ---------------------------------------------------------------------------
+// Dealer: entry points running on the session's goroutine
+
+//@ pred validProc(d *dealer, p wamp.URI, match string) = d.strictURI ? (match == wamp.MatchWildcard ? inre(string(p), "strict-wildcard") : (match == wamp.MatchPrefix ? inre(string(p), "strict-prefix") : inre(string(p), "strict-exact"))) : (match == wamp.MatchWildcard ? inre(string(p), "loose-wildcard") : (match == wamp.MatchPrefix ? inre(string(p), "loose-prefix") : inre(string(p), "loose-exact")))
+
+//@ pred trustedRole(c *wamp.Session) = "authrole" in c.Details && ((is(c.Details["authrole"], string) && c.Details["authrole"].(string) == "trusted") || (is(c.Details["authrole"], wamp.URI) && c.Details["authrole"].(wamp.URI) == "trusted") || is(c.Details["authrole"], []byte))
+
+//@ func (d *dealer) register
+//@   props C03 C12
+//@   requires d != nil && !isnil(d.log) && callee != nil && !isnil(callee.Peer) && msg != nil
+//@   sendsite action : [valid-uri-only] ch == d.actionChan ==> validProc(d, msg.Procedure, match)
+//@   sendsite action : [no-restricted-procedure] ch == d.actionChan ==> !(hasPrefix(string(msg.Procedure), "wamp.") && callee.ID != metaID)
+//@   sendsite action : [disclose-caller-only-if-allowed] ch == d.actionChan ==> !disclose || d.allowDisclose || old(trustedRole(callee))
+//@   callsite Send : [meta-peer-set] assume !isnil(d.metaPeer)
+//@   callsite trySend : [errors-to-requester] arg1 == callee && is(arg2, *wamp.Error) && arg2.(*wamp.Error).Type == wamp.REGISTER && arg2.(*wamp.Error).Request == msg.Request
+//@   callsite trySend : [invalid-uri] !validProc(d, msg.Procedure, match) || (hasPrefix(string(msg.Procedure), "wamp.") && callee.ID != metaID) ==> arg2.(*wamp.Error).Error == wamp.ErrInvalidURI
+
+//@ closure (d *dealer) register 1
+//@   on dealer
+//@   captures done != nil
+//@   props C03
+//@   captures callee != nil && !isnil(callee.Peer) && msg != nil
+//@   requires dealerInv(d) && dealerIndex(d)
+//@   assume [registration-ids-not-wrapped] regIdsFresh(d)
+//@   callsite syncRegister : [pass-through] arg0 == d && arg1 == callee && arg2 == msg && arg3 == match && arg4 == invoke && arg5 == disclose && arg6 == forwardTimeout && arg7 == wampURI
+
+//@ func (d *dealer) unregister
+//@   props C03
+//@   requires d != nil && callee != nil && !isnil(callee.Peer) && msg != nil
+//@   callsite Send : [meta-peer-set] assume !isnil(d.metaPeer)
+
+//@ closure (d *dealer) unregister 1
+//@   on dealer
+//@   captures done != nil
+//@   props C03
+//@   captures callee != nil && !isnil(callee.Peer) && msg != nil
+//@   requires dealerInv(d) && dealerIndex(d)
+//@   callsite syncUnregister : [pass-through] arg0 == d && arg1 == callee && arg2 == msg
+
+//@ func (d *dealer) call
+//@   props C02 C03
+//@   requires d != nil && caller != nil && !isnil(caller.Peer) && msg != nil
+
+//@ closure (d *dealer) call 1
+//@   on dealer
+//@   props C02 C03
+//@   captures caller != nil && !isnil(caller.Peer) && msg != nil
+//@   requires dealerInv(d) && callsInv(d) && callsFresh(d)
+//@   callsite syncCall : [pass-through] arg0 == d && arg1 == caller && arg2 == msg
+
+//@ func (d *dealer) cancel
+//@   props C13
+//@   requires d != nil && !isnil(d.log) && caller != nil && !isnil(caller.Peer) && msg != nil
+//@   sendsite action : [known-mode-only] ch == d.actionChan ==> mode == wamp.CancelModeKill || mode == wamp.CancelModeKillNoWait || mode == wamp.CancelModeSkip
+//@   callsite trySend : [invalid-mode-refused] arg1 == caller && is(arg2, *wamp.Error) && arg2.(*wamp.Error).Type == wamp.CANCEL && arg2.(*wamp.Error).Request == msg.Request && arg2.(*wamp.Error).Error == wamp.ErrInvalidArgument && mode != wamp.CancelModeKill && mode != wamp.CancelModeKillNoWait && mode != wamp.CancelModeSkip && mode != ""
+
+//@ closure (d *dealer) cancel 1
+//@   on dealer
+//@   props C13
+//@   captures caller != nil && !isnil(caller.Peer) && msg != nil
+//@   requires dealerNN(d) && callsInv(d)
+//@   callsite syncCancel : [pass-through] arg0 == d && arg1 == caller && arg2 == msg && arg3 == mode && arg4 == wamp.ErrCanceled && len(arg5) == 0
+
+//@ func (d *dealer) yield
+//@   props C02
+//@   requires d != nil && !isnil(d.log) && callee != nil && !isnil(callee.Peer) && msg != nil
+
+//@ closure (d *dealer) yield 1
+//@   on dealer
+//@   props C02 C03
+//@   captures callee != nil && !isnil(callee.Peer) && msg != nil
+//@   requires dealerNN(d) && callsInv(d)
+//@   callsite syncYield : [pass-through] arg0 == d && arg1 == callee && arg2 == msg && arg3 == progress && arg4
+
+//@ closure (d *dealer) yield 2
+//@   on dealer
+//@   props C02 C03
+//@   captures callee != nil && !isnil(callee.Peer) && msg != nil
+//@   requires dealerNN(d) && callsInv(d)
+//@   callsite syncYield : [pass-through] arg0 == d && arg1 == callee && arg2 == msg && arg3 == progress && arg4 == retry
+
+//@ func (d *dealer) error
+//@   props C02
+//@   requires d != nil && msg != nil && callee != nil
+
+//@ closure (d *dealer) error 1
+//@   on dealer
+//@   props C02 C03
+//@   captures callee != nil && msg != nil
+//@   requires dealerNN(d) && callsInv(d)
+//@   callsite syncError : [pass-through] arg0 == d && arg1 == callee && arg2 == msg
+
+//@ func (d *dealer) removeSession
+//@   props C05
+//@   requires d != nil
+//@   callsite Send : [meta-peer-set] assume !isnil(d.metaPeer)
+
+//@ closure (d *dealer) removeSession 1
+//@   on dealer
+//@   captures done != nil
+//@   props C02 C05
+//@   captures sess != nil
+//@   requires dealerInv(d) && dealerIndex(d) && callsInv(d)
+//@   callsite syncRemoveSession : [pass-through] arg0 == d && arg1 == sess
+
+//@ closure (d *dealer) syncCall 1.1
+//@   dyncalls-pure
+//@   on dealer
+//@   props C13 C02
+//@   captures caller != nil && !isnil(caller.Peer) && msg != nil
+//@   requires dealerNN(d) && callsInv(d)
+//@   callsite syncCancel : [timeout-is-killnowait-with-timeout-error] arg0 == d && arg1 == caller && arg2.Request == msg.Request && arg3 == wamp.CancelModeKillNoWait && arg4 == wamp.ErrTimeout && len(arg5) == 1
